@@ -21,6 +21,7 @@ class FieldSpec:
     required: bool = True
     default: Optional[tuple] = None      # ("value", obj) | ("factory", callable)
     kind: str = "pos_or_kw"             # pos_only | pos_or_kw | kw_only
+    param: Optional[str] = None          # constructor parameter name when it differs from the field id (attrs alias)
 
 
 @dataclass
